@@ -116,7 +116,10 @@ class PITFrozenTimestepMasker(PITTimestepMasker):
             rf,
             trainable=False,
         )
-        self.beta.requires_grad = False
+        # a frozen mask is not a parameter: keep it as a (non-trainable) buffer with the same name
+        beta = self.beta.data
+        del self.beta
+        self.register_buffer('beta', beta)
 
     @property
     def trainable(self) -> bool:
